@@ -23,6 +23,10 @@ import (
 	"math/big"
 	"os"
 	"reflect"
+	"runtime"
+	"strconv"
+	"strings"
+	"sync"
 
 	"github.com/davecgh/go-spew/spew"
 )
@@ -41,15 +45,47 @@ type vector struct {
 	Draws  []entry `json:"draws"`
 }
 
+var vec *vector
+
+// state is the per-goroutine replay state (one per goroutine so that the race replay of C18 can run the
+// same harness concurrently; an ordinary replay uses a single goroutine).
+type state struct {
+	pos        int
+	Failures   []string
+	Hits       map[string]int
+	faultAt    int
+	randCnt    int
+	notes      []string
+	randLog    [][]byte
+	randIntLog [][]byte
+	frameDumps []string
+	frameRoots []any
+}
+
 var (
-	vec      *vector
-	pos      int
-	Failures []string
-	Hits     = map[string]int{}
-	faultAt  = -1
-	randCnt  int
-	notes    []string
+	stMu   sync.Mutex
+	states = map[int64]*state{}
 )
+
+func goid() int64 {
+	var buf [64]byte
+	n := runtime.Stack(buf[:], false)
+	f := strings.Fields(string(buf[:n]))
+	id, _ := strconv.ParseInt(f[1], 10, 64)
+	return id
+}
+
+func cur() *state {
+	id := goid()
+	stMu.Lock()
+	defer stMu.Unlock()
+	s := states[id]
+	if s == nil {
+		s = &state{Hits: map[string]int{}, faultAt: -1}
+		states[id] = s
+	}
+	return s
+}
 
 // AssumeFailed is the panic value when a replay vector does not satisfy a harness assumption.
 type AssumeFailed struct{}
@@ -74,16 +110,17 @@ func next(kind string) entry {
 	if vec == nil {
 		panic("verifrt: no replay vector (set VERIF_REPLAY)")
 	}
-	for pos < len(vec.Draws) && vec.Draws[pos].Kind == "cbcdec" {
-		pos++ // model-only entries (values of the uninterpreted cipher), see ModelPlaintext
+	s := cur()
+	for s.pos < len(vec.Draws) && vec.Draws[s.pos].Kind == "cbcdec" {
+		s.pos++ // model-only entries (values of the uninterpreted cipher), see ModelPlaintext
 	}
-	if pos >= len(vec.Draws) {
-		panic(fmt.Sprintf("verifrt: replay vector exhausted at draw %d (%s)", pos, kind))
+	if s.pos >= len(vec.Draws) {
+		panic(fmt.Sprintf("verifrt: replay vector exhausted at draw %d (%s)", s.pos, kind))
 	}
-	e := vec.Draws[pos]
-	pos++
+	e := vec.Draws[s.pos]
+	s.pos++
 	if e.Kind != kind {
-		panic(fmt.Sprintf("verifrt: replay desync at draw %d: vector has %s, harness asks %s", pos-1, e.Kind, kind))
+		panic(fmt.Sprintf("verifrt: replay desync at draw %d: vector has %s, harness asks %s", s.pos-1, e.Kind, kind))
 	}
 	return e
 }
@@ -91,11 +128,12 @@ func next(kind string) entry {
 type replayReader struct{}
 
 func (replayReader) Read(p []byte) (int, error) {
-	randCnt++
-	if randCnt == faultAt {
+	s := cur()
+	s.randCnt++
+	if s.randCnt == s.faultAt {
 		return 0, errors.New("verifrt: injected random source failure")
 	}
-	if pos < len(vec.Draws) && vec.Draws[pos].Kind == "randint" {
+	if s.pos < len(vec.Draws) && vec.Draws[s.pos].Kind == "randint" {
 		// crypto/rand.Int: the value is delivered as big-endian octets of the requested width
 		e := next("randint")
 		h := e.Hex
@@ -110,7 +148,7 @@ func (replayReader) Read(p []byte) (int, error) {
 			b = b[len(b)-len(p):]
 		}
 		copy(p[len(p)-len(b):], b)
-		randIntLog = append(randIntLog, append([]byte{}, p...))
+		s.randIntLog = append(s.randIntLog, append([]byte{}, p...))
 		return len(p), nil
 	}
 	e := next("rand")
@@ -119,17 +157,15 @@ func (replayReader) Read(p []byte) (int, error) {
 		panic(fmt.Sprintf("verifrt: rand read of %d octets, vector has %d", len(p), len(b)))
 	}
 	copy(p, b)
-	randLog = append(randLog, append([]byte{}, b...))
+	s.randLog = append(s.randLog, append([]byte{}, b...))
 	return len(p), nil
 }
 
-var randLog, randIntLog [][]byte
-
 // RandIntLog returns, as big-endian octet strings, the values crypto/rand.Int has returned so far.
-func RandIntLog() [][]byte { return randIntLog }
+func RandIntLog() [][]byte { return cur().randIntLog }
 
 // RandLog returns the octets delivered by every successful read of the random source so far.
-func RandLog() [][]byte { return randLog }
+func RandLog() [][]byte { return cur().randLog }
 
 // ModelPlaintext returns the octets the solver's model assigned to the i-th CBC decryption of the
 // counterexample (values of the uninterpreted block decryption), or nil.  A native replay uses them to
@@ -151,24 +187,22 @@ func ModelPlaintext(i int) []byte {
 	return nil
 }
 
-var frameDumps []string
-
 var dumper = spew.ConfigState{Indent: " ", DisablePointerAddresses: true, DisableCapacities: true, SortKeys: true, DisableMethods: true}
 
 // FrameBegin starts a frame condition on everything reachable from root: under the executor every
 // later write to an object that is reachable from root now is recorded; natively a deep dump
 // (unexported fields included) is taken.
 func FrameBegin(root any) int {
-	frameDumps = append(frameDumps, dumper.Sdump(root))
-	frameRoots = append(frameRoots, root)
-	return len(frameDumps) - 1
+	s := cur()
+	s.frameDumps = append(s.frameDumps, dumper.Sdump(root))
+	s.frameRoots = append(s.frameRoots, root)
+	return len(s.frameDumps) - 1
 }
-
-var frameRoots []any
 
 // FrameUnchanged reports whether nothing reachable from the root has been written since FrameBegin.
 func FrameUnchanged(tok int) bool {
-	return dumper.Sdump(frameRoots[tok]) == frameDumps[tok]
+	s := cur()
+	return dumper.Sdump(s.frameRoots[tok]) == s.frameDumps[tok]
 }
 
 // Native reports whether the harness runs natively (replay) rather than under the executor.
@@ -256,16 +290,17 @@ func Assume(c bool) {
 }
 
 func Assert(label string, c bool) {
-	Hits[label]++
+	s := cur()
+	s.Hits[label]++
 	if !c {
-		Failures = append(Failures, label)
+		s.Failures = append(s.Failures, label)
 		fmt.Printf("VERIF-ASSERT-FAIL %s\n", label)
 	}
 }
 
-func Cover(label string) { Hits["cover:"+label]++ }
+func Cover(label string) { cur().Hits["cover:"+label]++ }
 
-func Note(s string) { notes = append(notes, s) }
+func Note(n string) { s := cur(); s.notes = append(s.notes, n) }
 
 // All is a non-branching conjunction.
 func All(c ...bool) bool {
@@ -314,16 +349,17 @@ func Concrete(x int) int { return x }
 
 // FaultAt makes the k-th read (1-based) of the system random source fail; 0 = never.
 func FaultAt(k int) {
+	s := cur()
 	if k <= 0 {
-		faultAt = -1
+		s.faultAt = -1
 	} else {
-		faultAt = k
+		s.faultAt = k
 	}
-	randCnt = 0
+	s.randCnt = 0
 }
 
 // RandReads returns the number of reads of the random source so far.
-func RandReads() int { return randCnt }
+func RandReads() int { return cur().randCnt }
 
 func hashCtor(kind string) func() hash.Hash {
 	switch kind {
@@ -398,16 +434,14 @@ func LenAny(x any) int { return reflect.ValueOf(x).Len() }
 func SwapAny(x any, i, j int) { reflect.Swapper(x)(i, j) }
 
 // Done is called by replay tests after the harness returns.
-func Done() (failures []string, hits map[string]int) { return Failures, Hits }
+func Done() (failures []string, hits map[string]int) { s := cur(); return s.Failures, s.Hits }
 
-// Reset prepares for another harness run in the same process.
+// Reset prepares for another harness run on this goroutine.
 func Reset() {
-	pos = 0
-	Failures = nil
-	Hits = map[string]int{}
-	faultAt = -1
-	randCnt = 0
-	randLog, randIntLog = nil, nil
+	id := goid()
+	stMu.Lock()
+	delete(states, id)
+	stMu.Unlock()
 }
 
 // SpyHash wraps a keyed hash and records what is written to it and what it returns (native replay of
